@@ -217,6 +217,14 @@ def main(argv=None):
             print("VIOLATION property=%s replay=%s :: %s :: %s" % (prop, path, v["key"], v["what"][:300]))
     if len(printed) > 25:
         print("... %d further violations (no replay files beyond the first 25)" % (len(printed) - 25))
+    if os.environ.get("VERIF_DUMP_VIOLATIONS"):
+        # development aid (never read back at run time): every distinct violation of this run
+        seen_k, dump = set(), []
+        for v in ctx.violations:
+            if v["key"] not in seen_k:
+                seen_k.add(v["key"])
+                dump.append({"property": prop, "key": v["key"], "what": v["what"]})
+        jdump(dump, os.environ["VERIF_DUMP_VIOLATIONS"], indent=1)
     if fresh and rc == 0:
         rc = 1
     cov = ctx.cov
